@@ -323,6 +323,17 @@ def gen_rel(rng, shape):
         if op == ">=":
             sides.reverse()
         return {"op": op, "sides": sides}
+    if shape == "chain_abs":
+        # the SAME absolute value on two sides of a chain:  y >= 3|x| >= |x| + 1  -- each link is judged on its own
+        # (here the second link is not convex although the term is net-positive over the whole chain)
+        body = gen_lin(rng, vs, 0, 1)
+        k1, k2 = rng.sample([4, 8, 12, 16], 2)
+        big = [{"t": "abs", "k": k1, "items": body}]
+        small = [{"t": "abs", "k": k2, "items": [dict(b) for b in body]}, {"t": "num", "k": rng.choice([4, 8, -4])}]
+        sides = [gen_lin(rng, vs, 0, 1), big, small]
+        if op == "<=":
+            sides.reverse()
+        return {"op": op, "sides": sides}
     if shape == "nonconvex":
         lhs = gen_lin(rng, vs, 0, 1)
         rhs = [{"t": "abs", "k": rng.choice([4, 8]), "items": gen_lin(rng, vs, 0, 1)}] + gen_lin(rng, vs, 0, 1)
